@@ -55,6 +55,7 @@ type fmtRun struct {
 	fidEx    []string
 	fnItems  []*fnRec
 	fnSeen   map[string]bool
+	fnIdem   map[int]bool // FnIdem verdicts of "fn" records by id (filled by validate)
 }
 
 // addFn records the function value a one-statement source defines (Inspect and SaveGlobals texts).
@@ -152,7 +153,7 @@ func fmtGenCfg(thorough bool) string {
 		t = "TRUE"
 	}
 	return `CONSTANTS
- Families = {"prec","oppair","signs","depth3","stmtpair","stmt","comment","string","literal","func"}
+ Families = {"prec","oppair","signs","depth3","stmtpair","stmt","comment","string","literal","func","fnbody"}
  Thorough = ` + t + "\nINIT Init\nNEXT Next\n"
 }
 
@@ -223,14 +224,18 @@ func (fr *fmtRun) genTrees() error {
 			}
 		}
 		ws, _ := fmtRenderProgram(g.T, fsWS, rng)
-		if g.Fam == "func" || g.Fam == "stmt" {
+		if g.Fam == "func" || g.Fam == "stmt" || g.Fam == "fnbody" {
 			fr.addFnStatements(g.T)
 		}
 		want := ""
 		if comparable {
 			want = canonDump(g.T)
 		}
-		for _, v := range []struct{ st, src string }{{"min", min}, {"parens", par}, {"ws", ws}} {
+		styles := []struct{ st, src string }{{"min", min}, {"parens", par}, {"ws", ws}}
+		if g.Fam == "fnbody" {
+			styles = styles[:1] // this family is about the function-VALUE printer; the source printer gets the minimal text only
+		}
+		for _, v := range styles {
 			dup := fr.seenSrc[v.src]
 			ok := fr.add(fmtCase{Fam: g.Fam, Name: name, Style: v.st, Src: v.src, Exh: true})
 			if dup {
@@ -455,6 +460,7 @@ func (fr *fmtRun) validate(extra []J) (map[int]fmtVerdict, map[int]bool, error) 
 		counts[i%shards]++
 	}
 	res := map[int]fmtVerdict{}
+	fr.fnIdem = map[int]bool{}
 	sess := map[int]bool{} // verdicts of "sess" and "fn" records by id
 	var mu sync.Mutex
 	var wg sync.WaitGroup
@@ -480,14 +486,18 @@ func (fr *fmtRun) validate(extra []J) (map[int]fmtVerdict, map[int]bool, error) 
 			err = ReadLines(r.Emitted, func(line []byte) error {
 				if bytes.Contains(line, []byte(`"same"`)) || bytes.Contains(line, []byte(`"fn"`)) {
 					var v struct {
-						ID   int  `json:"id"`
-						Same bool `json:"same"`
-						Fn   bool `json:"fn"`
+						ID     int  `json:"id"`
+						Same   bool `json:"same"`
+						Fn     bool `json:"fn"`
+						FnIdem bool `json:"fnidem"`
 					}
 					if err := json.Unmarshal(line, &v); err != nil {
 						return err
 					}
 					sess[v.ID] = v.Same || v.Fn
+					if bytes.Contains(line, []byte(`"fnidem"`)) {
+						fr.fnIdem[v.ID] = v.FnIdem
+					}
 				} else {
 					var v fmtVerdict
 					if err := json.Unmarshal(line, &v); err != nil {
